@@ -68,7 +68,9 @@ Theorem C10_content_only :
 Proof. intros W WOK. exact (@content_all W WOK). Qed.
 Print Assumptions C10_content_only.
 
-(* 3. a copy is equal to the original - for the REPAIRED copy code (fixes/C10_*.diff):
+(* 3. a copy is equal to the original - for the REPAIRED copy code (fixes/C10_*.diff,
+   in /repo since commit b4b663f; [Bridge.tree_flags] is the variant the working
+   tree has, read from its source on every run):
    at every copy point of every history the copy and the original (whose
    withdraw-queue cache the call fills) show the same content, have the same
    roots and both keep the invariant, so 1 and 2 hold for the copy too.
@@ -85,9 +87,10 @@ Theorem C10_copy_equal_partial :
 Proof. intros W WOK d s l D I. exact (@copy_all W WOK d s l repaired D I (copy_safe_repaired _)). Qed.
 Print Assumptions C10_copy_equal_partial.
 
-(* the copy code AS IT IS in the tree: the same holds outside the two finding
-   classes ([copy_safe]: nothing pending when copied, no live object with an
-   unwritten delegation list) ... *)
+(* any variant of the copy code, in particular the code as it was before the
+   repair ([as_is]): the same holds outside the two finding classes
+   ([copy_safe]: nothing pending when copied, no live object with an unwritten
+   delegation list) ... *)
 Theorem C10_copy_equal_as_is_holds_outside :
   forall (W : World) (WOK : WorldOk W) d s l f, DbOk d -> Inv d s ->
     let ds := crun (d, s) l in
